@@ -262,6 +262,18 @@ func wipeTokens(ts []tokens.Token) {
 func buildFlow(p P) flow {
 	chal, nonce := inputOf(p)
 	oc, on := mc.Fill(p.Seed, "c11-unrelated-chal", 40), mc.Fill(p.Seed, "c11-unrelated-nonce", 32)
+	if len(chal) > 0 {
+		oc = oc[:0]
+		oc = append(oc, mc.Fill(p.Seed, "c11-unrelated-chal-same-length", len(chal))...) // same length as the judged challenge, other bytes
+	}
+	// the caller keeps ONE challenge buffer and refills it for every request (the unrelated request
+	// in between carries another challenge): what was in it for an earlier call must not matter
+	chalBuf := make([]byte, 0, len(chal)+len(oc)+8)
+	inBuf := func(b []byte) []byte {
+		chalBuf = chalBuf[:len(b)]
+		copy(chalBuf, b)
+		return chalBuf
+	}
 	switch p.T {
 	case 1:
 		w := px.NewW1(p.Key)
@@ -273,7 +285,7 @@ func buildFlow(p P) flow {
 		return flow{
 			create: func(b int) (made, error) {
 				// challenge and nonce live in caller buffers that are reused right after the call
-				ch, no, kid := scratch(chal), scratch(nonce), scratch(w.KeyID)
+				ch, no, kid := inBuf(chal), scratch(nonce), scratch(w.KeyID)
 				st, err := c.CreateTokenRequestWithBlind(ch, no, kid, w.ClientPub(), bl[b])
 				scribble(ch, no, kid)
 				if err != nil {
@@ -296,7 +308,7 @@ func buildFlow(p P) flow {
 				}}, nil
 			},
 			unrelated: func() error {
-				_, err := c.CreateTokenRequest(oc, on, w.KeyID, w.ClientPub())
+				_, err := c.CreateTokenRequest(inBuf(oc), on, w.KeyID, w.ClientPub())
 				return err
 			},
 			evaluate: func(req []byte) ([]byte, error) { return wireErr(w.EvaluateWire(req)) },
@@ -310,7 +322,7 @@ func buildFlow(p P) flow {
 			rb[b] = rsaBlind(p.Seed, b, w.Key.N, fmt.Sprintf("k%d", p.Key))
 		}
 		mk := func(b, salt int) (made, error) {
-			ch, no, kid := scratch(chal), scratch(nonce), scratch(w.KeyID)
+			ch, no, kid := inBuf(chal), scratch(nonce), scratch(w.KeyID)
 			st, err := c.CreateTokenRequestWithBlind(ch, no, kid, w.ClientPub(), rb[b], salts[salt])
 			scribble(ch, no, kid)
 			if err != nil {
@@ -334,7 +346,7 @@ func buildFlow(p P) flow {
 		return flow{
 			create: func(b int) (made, error) { return mk(b, p.Salt) },
 			unrelated: func() error {
-				_, err := c.CreateTokenRequest(oc, on, w.KeyID, w.ClientPub())
+				_, err := c.CreateTokenRequest(inBuf(oc), on, w.KeyID, w.ClientPub())
 				return err
 			},
 			evaluate: ev,
@@ -375,7 +387,7 @@ func buildFlow(p P) flow {
 		}
 		return flow{
 			create: func(b int) (made, error) {
-				ch, kid := scratch(chal), scratch(w.KeyID)
+				ch, kid := inBuf(chal), scratch(w.KeyID)
 				ns := make([][]byte, len(nonces))
 				for i := range nonces {
 					ns[i] = scratch(nonces[i])
@@ -403,7 +415,7 @@ func buildFlow(p P) flow {
 				}}, nil
 			},
 			unrelated: func() error {
-				_, err := c.CreateTokenRequest(oc, [][]byte{on}, w.KeyID, w.ClientPub())
+				_, err := c.CreateTokenRequest(inBuf(oc), [][]byte{on}, w.KeyID, w.ClientPub())
 				return err
 			},
 			evaluate: func(req []byte) ([]byte, error) { return wireErr(w.EvaluateWire(req)) },
@@ -478,6 +490,11 @@ func runPair(p P) (outcome string, v *mc.Viol) {
 		}
 		return tok, "", nil
 	}
+	// the client has just made an unrelated request (another challenge of the same length, held in
+	// the same caller buffer)
+	if err := f.unrelated(); err != nil {
+		return fail("unrelated random request on the same client", err)
+	}
 	a1, err := f.create(p.I)
 	if err != nil {
 		return fail("create(blind i) #1", err)
@@ -508,6 +525,17 @@ func runPair(p P) (outcome string, v *mc.Viol) {
 	}
 	if !bytes.Equal(tokA1, tokA2) {
 		return differ("token bytes differ between two issuances with the same arguments", tokA1, tokA2)
+	}
+	{
+		// every token carries SHA-256 of the challenge it was requested for (whatever the client did before)
+		chalNow, _ := inputOf(p)
+		want := sha256.Sum256(chalNow)
+		tl := map[int]int{1: 98 + 48, 2: 98 + 256, 5: 98 + 64}[p.T]
+		for off := 0; off+tl <= len(tokA1); off += tl {
+			if !bytes.Equal(tokA1[off+34:off+66], want[:]) {
+				return differ("the token context is not SHA-256 of the challenge of this request", tokA1[off+34:off+66], want[:])
+			}
+		}
 	}
 	a3, err := f.create(p.I)
 	if err != nil {
